@@ -188,6 +188,9 @@ def run(cx):
         def extra_edge(a, bb, subj, labels, oo):
             n = normalize_cmp(subj)
             if n is None:
+                # `match buf[7] { 0 => .., _ => .. }`: the byte itself is the switch subject
+                if buf_index(subj) == ("elem", 7) and not (labels & {"true", "false"}):
+                    return "reserved=ok" if labels == {"0"} else ("reserved=bad" if "0" not in labels else None)
                 return None
             neg, op, x, y = n
             if labels not in ({"true"}, {"false"}) or op not in ("eq", "ne"):
